@@ -105,7 +105,8 @@ def load_schema(xml, cache=False):
     import ZConfig
     if cache and xml in _SCHEMA_CACHE:
         return _SCHEMA_CACHE[xml]
-    s = ZConfig.loadSchemaFile(io.StringIO(xml))
+    # the schema has a URL of its own (different from every configuration resource's)
+    s = ZConfig.loadSchemaFile(io.StringIO(xml), 'http://m/schemas/family.xml')
     if cache:
         _SCHEMA_CACHE[xml] = s
     return s
